@@ -118,6 +118,8 @@ def _generate_slice(ns, node):
         else:
             sr = f"[{node.start}]"
     r, s = _generate_expression(ns, node.value)
+    if sr == "" and s:
+        r = "{" + r + "}" # Keep unsliced 1-bit signed Signals unsigned.
     return r + sr, False # Slices are unsigned.
 
 # Print Cat ----------------------------------------------------------------------------------------
